@@ -117,6 +117,11 @@ Definition wait_ok (st : site) : bool :=
   | _ => true
   end.
 
+(** a panic inside a backend call is recovered in connState.handle: every lock held around a
+    backend call must be released by a deferred Unlock (lock clause of C15) *)
+Definition panic_safe (st : site) : bool :=
+  match s_kind st with KCall _ _ _ => match s_undeferred st with [] => true | _ => false end | _ => true end.
+
 (** functions of package p9 outside the interpreted files that take a lock: none *)
 Definition outside_ok : bool := match outside_lockers with [] => true | _ => false end.
 
